@@ -92,6 +92,14 @@ def _excluded_columns(cols):
                 exc = (exc or set()) | items
             else:
                 inc = (inc or set()) | items
+        elif isinstance(x, tuple) and x and x[0] == "cmp" and x[1] in ("!=", "==") and any(y[0] == "b" for y in x[2:4]):
+            # `i != COL` / `i == COL` over the bound column number
+            other = [y for y in x[2:4] if y[0] != "b"]
+            if len(other) == 1 and other[0][0] in ("k", "c"):
+                if x[1] == "!=":
+                    exc = (exc or set()) | {key(other[0])}
+                else:
+                    inc = (inc or set()) | {key(other[0])}
     if exc is None and inc is None and cols[0] in ("list", "tuple") or (cols[0] == "call" and cols[2] and cols[2][0][0] in ("list", "tuple")):
         lst = cols if cols[0] in ("list", "tuple") else cols[2][0]
         inc = {key(i) for i in lst[1]}
@@ -123,7 +131,7 @@ def r4_1(run):
             base = expect(ix, f, "net['_pit'][%r]" % kind)
             act = expect(ix, f, "net['_active_pit'][%r]" % kind)
             L = expect(ix, f, "get_lookup(net, %r, %r)" % (kind, "active_" + mode))
-            S = [s for s in r.stores() if key(s.base) == key(base)]
+            S = [s for s in r.stores() if key(base_of(s.base)) == key(base)]
             copies = [s for s in S if contains(s.value, act)]
             fills = [s for s in S if not contains(s.value, act)]
             k0 = "%s|%s" % (mode, kind)
